@@ -3,6 +3,8 @@
 #include <iostream>
 #include <sstream>
 #include <map>
+#include <set>
+#include <cstdio>
 #include <vector>
 #include <string>
 namespace upa_verif {
@@ -36,26 +38,32 @@ static std::vector<std::string> dump() {
     }
     return out;
 }
+// where a sanitizer abort happened: the number of the operation being executed (1-based), for the history to replay
+static long g_opno = 0;
+extern "C" void __sanitizer_set_death_callback(void (*)(void));
+static void on_death() { std::fprintf(stderr, "\nDEATH-AT-OP %ld\n", g_opno); std::fflush(stderr); }
 int main() {
+    __sanitizer_set_death_callback(on_death);
     std::string line; long nops = 0, nbad = 0, nhidden = 0; std::string curop;
+    std::set<long> mine;   // params objects this harness allocated itself (owned ones belong to their url)
     std::vector<std::string> expect; std::vector<long> newu, newp, delu, delp;
-    upa::url* createdU = nullptr; usp* createdP = nullptr;
+    upa::url* createdU = nullptr; usp* createdP = nullptr; bool createdMine = false;
     while (std::getline(std::cin, line)) {
         if (line == "RESET") {
-            // owned params die with their urls
-            for (auto& kv : P) if (!access::owner(*kv.second)) { bool owned=false; for (auto& u : U) if (access::has_params(*u.second) && access::params(*u.second)==kv.second) owned=true; if(!owned) delete kv.second; }
+            // owned params die with their urls; the harness deletes exactly what it allocated itself
+            for (auto& kv : P) if (mine.count(kv.first)) delete kv.second;
             for (auto& kv : U) delete kv.second;
-            U.clear(); P.clear(); continue;
+            U.clear(); P.clear(); mine.clear(); continue;
         }
         std::istringstream is(line); std::string w; is >> w;
         if (w == "OP") {
-            curop = line; ++nops; expect.clear(); newu.clear(); newp.clear(); delu.clear(); delp.clear(); createdU = nullptr; createdP = nullptr;
+            curop = line; ++nops; g_opno = nops; expect.clear(); newu.clear(); newp.clear(); delu.clear(); delp.clear(); createdU = nullptr; createdP = nullptr; createdMine = true;
             std::string op; is >> op;
             auto rdU = [&]() { long i; is >> i; return U.at(i); };
             auto rdP = [&]() { long i; is >> i; return P.at(i); };
             if (op == "newUrl") createdU = new upa::url();
             else if (op == "newParams") { std::vector<std::pair<std::string,std::string>> v; std::string a, b; while (is >> a >> b) v.emplace_back(tok(a), tok(b)); createdP = new usp(v); }
-            else if (op == "urlSearchParams") { auto u = rdU(); createdP = &u->search_params(); }
+            else if (op == "urlSearchParams") { auto u = rdU(); createdP = &u->search_params(); createdMine = false; }
             else if (op == "urlCopyConstruct") { auto s = rdU(); createdU = new upa::url(*s); }
             else if (op == "urlCopyAssign") { auto d = rdU(); auto s = rdU(); *d = *s; }
             else if (op == "urlMoveConstruct") { auto s = rdU(); createdU = new upa::url(std::move(*s)); }
@@ -76,7 +84,7 @@ int main() {
             else if (op == "paramsMoveAssign") { auto d = rdP(); auto s = rdP(); *d = std::move(*s); }
             else if (op == "paramsSafeAssign") { auto d = rdP(); auto s = rdP(); d->safe_assign(std::move(*s)); }
             else if (op == "paramsSwap") { auto a = rdP(); auto b = rdP(); a->swap(*b); }
-            else if (op == "destroyParams") { long i; is >> i; delete P.at(i); P.erase(i); }
+            else if (op == "destroyParams") { long i; is >> i; delete P.at(i); P.erase(i); mine.erase(i); }
             else if (op == "paramsMutate") { auto p = rdP(); std::string m, a, b; is >> m;
                 if (m=="append") { is >> a >> b; p->append(tok(a), tok(b)); } else if (m=="set") { is >> a >> b; p->set(tok(a), tok(b)); }
                 else if (m=="del") { is >> a; p->del(tok(a)); } else if (m=="remove") { is >> a; p->remove(tok(a)); }
@@ -85,9 +93,9 @@ int main() {
                 else { std::cout << "UNKNOWN MUT " << line << "\n"; } }
             else std::cout << "UNKNOWN OP " << line << "\n";
         } else if (w == "NEWU") { long i; is >> i; U[i] = createdU; }
-        else if (w == "NEWP") { long i; is >> i; P[i] = createdP; }
+        else if (w == "NEWP") { long i; is >> i; P[i] = createdP; if (createdMine) mine.insert(i); }
         else if (w == "DELU") { long i; is >> i; U.erase(i); }
-        else if (w == "DELP") { long i; is >> i; P.erase(i); }
+        else if (w == "DELP") { long i; is >> i; P.erase(i); mine.erase(i); }
         else if (w == "S") expect.push_back(line);
         else if (w == "E") {
             auto got = dump();
@@ -113,9 +121,9 @@ int main() {
         }
     }
     // free what the last history left alive (as RESET does), so that LeakSanitizer reports only what the library leaks
-    for (auto& kv : P) if (!access::owner(*kv.second)) { bool owned = false; for (auto& u : U) if (access::has_params(*u.second) && access::params(*u.second) == kv.second) owned = true; if (!owned) delete kv.second; }
+    for (auto& kv : P) if (mine.count(kv.first)) delete kv.second;
     for (auto& kv : U) delete kv.second;
-    U.clear(); P.clear();
+    U.clear(); P.clear(); mine.clear();
     std::cout << "ops=" << nops << " mismatching states=" << nbad << " hidden-only=" << nhidden << "\n";
     return nbad ? 1 : 0;
 }
